@@ -18,7 +18,7 @@ RULE = ("kinds: exact (4-/8-tuples of 64-bit integers run through the library's 
         "log(exp q)=q for |v| in (0,pi), 1e-6), dual (associativity, 8x8 matrix form, conjugate, norm defined, (1,0) for "
         "unit dual quaternions built from rigid motions), symbolic (the same identities executed once on SymPy symbols and "
         "expanded to 0; supplementary). Non-trivial: all components non-zero and pairwise distinct.")
-RULE = RULE + probes.RULE_TEXT + (probes.AUG_TEXT if PROPERTY_ID in probes.AUG_PROPS else "") + probes.VARIANT_TEXT + probes.OWN_TEXT
+RULE = RULE + probes.RULE_TEXT + (probes.AUG_TEXT if PROPERTY_ID in probes.AUG_PROPS else "") + probes.VARIANT_TEXT + probes.OWN_TEXT + probes.EXTRA_RULES.get(PROPERTY_ID, "")
 ASSUMPTIONS = ["Python big-integer arithmetic is exact; a wrong polynomial identity of degree <= 4 survives one random 64-bit draw with probability < 2^-60 (Schwartz-Zippel)",
                "reference Hamilton product table in pbt/refs.py", "float identities: 1e-9 relative to the product of operand norms; exp/log 1e-6 relative to |q|"]
 
